@@ -1770,7 +1770,8 @@ static void vf_case(uint64_t c, vf_rng *r)
     X(a_buf_foreach) X(A_BUF_FOREACH) X(a_buf_foreach_reverse) X(A_BUF_FOREACH_REVERSE)                                            \
     X(a_forenum) X(A_FORENUM) X(a_forenum_reverse) X(A_FORENUM_REVERSE)                                                            \
     X(a_foreach) X(A_FOREACH) X(a_forsafe) X(A_FORSAFE)                                                                            \
-    X(a_foreach_reverse) X(A_FOREACH_REVERSE) X(a_forsafe_reverse) X(A_FORSAFE_REVERSE)
+    X(a_foreach_reverse) X(A_FOREACH_REVERSE) X(a_forsafe_reverse) X(A_FORSAFE_REVERSE)                                            \
+    X(a_iterate) X(A_ITERATE) X(a_iterate_reverse) X(A_ITERATE_REVERSE)
 #define SURF_ID(n) F_##n,
 enum { SURF_FORMS(SURF_ID) F_COUNT };
 #define SURF_NAME(n) "form/" #n,
@@ -2004,6 +2005,15 @@ static void surf_indexed_buf(seq *s)
             JUDGE(A_FOREACH_REVERSE, 1, 0)                                                            \
             A_FOREACH_REVERSE(T const *, q0, q1, b, n) { REC(q0) }                                    \
             JUDGE(A_FOREACH_REVERSE, 1, 0)                                                            \
+            /* the (start, end) address-range forms of a.h (mutation sweep: a_iterate_reverse with ptr - 0 survived) */ \
+            a_iterate(T, *, it, b, (T *)b + n) { REC(it) }                                                 \
+            JUDGE(a_iterate, 0, 0)                                                                    \
+            A_ITERATE(T *, p0, p1, b, (T *)b + n) { REC(p0) }                                              \
+            JUDGE(A_ITERATE, 0, 0)                                                                    \
+            a_iterate_reverse(T const, *, it, b, (T *)b + n) { REC(it) }                                   \
+            JUDGE(a_iterate_reverse, 1, 0)                                                            \
+            A_ITERATE_REVERSE(T const *, q0, q1, b, (T *)b + n) { REC(q0) }                                \
+            JUDGE(A_ITERATE_REVERSE, 1, 0)                                                            \
         }                                                                                             \
         a_forsafe(T, *, it, b, n) { REC(it) }                                                         \
         JUDGE(a_forsafe, 0, 0)                                                                        \
